@@ -27,6 +27,7 @@ func init() {
 			{ID: "C06.R4", Min: 10, Desc: "cleanup completeness: each effect exactly once on termination, none on restart", Fn: c06Cleanup},
 			{ID: "C06.R5", Min: 2, Desc: "spawn while dying", Fn: c06SpawnWhileDying},
 			{ID: "C06.R6", Min: 1, Desc: "child death recorded before the killed gate", Fn: c06ChainOrder},
+			{ID: "C06.R8", Min: 4, Desc: "every spawned child is in the parent's child table before it runs, so the kill fan-out reaches it (C05.R2)", Fn: c05Spawn},
 			{ID: "C06.R7", Min: 8, Desc: "subscription indexes stay consistent, so unsubscribe-all on termination finds every subscription (C19.R2)", Fn: c19Indexes},
 		},
 	})
